@@ -428,6 +428,11 @@ theorem tie_exprGetInner (hv n : Nat) : exprGetInner (hv : Int) (n : Int) = ((hv
   rw [Int.tmod_eq_emod_of_nonneg (by omega)]
   exact Int.ofNat_mod_ofNat _ _
 
+/-- `Get` distinguishes the bucket sizes 0 (none), 1 (that node) and the rest (inner hash): model `getRest`'s match
+on `[]`, `[n]`, `_` -/
+theorem tie_getSwitch : getSwitchTag = "len(nodes)" ∧ getSwitchCases = [0, 1] ∧ getSwitchHasDefault = true :=
+  ⟨rfl, rfl, rfl⟩
+
 /-- `Remove`: the same lower-bound search … -/
 theorem tie_condRemoveSearch (k x : Int) : condRemoveSearch k x = condGetSearch k x := rfl
 
